@@ -17,6 +17,9 @@ import BpModel.Casing
         - `{{ e }}` emits `str(value of e)` — the environment has no `finalize` and no autoescape;
           the value of a `str` attribute is itself, of an `int` attribute its decimal `str()` (`jstrInt`)
                                                                          (`Piece.expr "<source of e>" value`)
+          The source text kept in the piece is canonical (loop variables are written `<iterable>[]`:
+          `output_file.imports_end[]`, `output_file.services[].methods[].route`); it is a LABEL that says which
+          expression of the template produced the piece — it plays no part in `text`.
     * `{% for x in it %} body {% endfor %}` (no `else`, no filter, not recursive): the bodies for the elements of
       `it` in iteration order, concatenated (`List.flatMap`).  `loop.last` inside the body is true exactly in the
       last iteration (`forLast`).  A Python `set` is iterated in ITS iteration order, which the context fixes:
